@@ -29,6 +29,19 @@ pub fn run_case(c: &J) -> J {
         Ok(r) => Rd::Plain(r),
         Err(e) => return json!({"result": "openerr", "err": e.to_string()}),
     };
+    // the file's zoom level (when one was asked for), read once through a separate fresh reader: [chrom, start, end] in file order
+    let mut zlevel = vec![];
+    let zres: Option<u32> = c["opts"]["zooms"].as_array().and_then(|z| z.first()).and_then(|z| z.as_i64()).map(|z| ctx.pos_in(z));
+    if let Some(res) = zres {
+        let mut fresh = match BigWigRead::open_file(&path) { Ok(r) => r, Err(e) => return json!({"result": "openerr", "err": e.to_string()}) };
+        let chroms: Vec<(String, u32)> = fresh.chroms().iter().map(|c| (c.name.clone(), c.length)).collect();
+        for (name, len) in chroms {
+            match fresh.get_zoom_interval(&name, 0, len, res).map_err(|e| e.to_string()).and_then(|it| it.collect::<Result<Vec<_>, _>>().map_err(|e| e.to_string())) {
+                Ok(v) => for z in v { zlevel.push(json!([ctx.chrom_idx(&name), ctx.pos_out(z.start), ctx.pos_out(z.end)])); },
+                Err(e) => return json!({"result": "zoomerr", "err": e}),
+            }
+        }
+    }
     let mut answers = vec![];
     for h in c["hist"].as_array().unwrap() {
         let op = h["op"].as_str().unwrap();
@@ -76,6 +89,22 @@ pub fn run_case(c: &J) -> J {
                     }
                 }
                 answers.push(json!({"op": if skip { "skipped" } else { op }, "c": ci, "s": s, "e": e, "iv": iv, "vals": vals, "err": err}));
+            }
+            "zoom" => {
+                // a zoom-level query through the SAME reader instance (shares the lazily read info and both caches with data queries)
+                let ci = h["c"].as_i64().unwrap();
+                let name = ctx.names[(ci - 1) as usize].clone();
+                let (s, e) = (h["s"].as_i64().unwrap(), h["e"].as_i64().unwrap());
+                let (ss, ee) = (ctx.pos_in(s), ctx.pos_in(e));
+                let res = zres.unwrap_or(2);
+                let got: Result<Vec<bigtools::ZoomRecord>, String> = match &mut rd {
+                    Rd::Plain(r) => r.get_zoom_interval(&name, ss, ee, res).map_err(|e| e.to_string()).and_then(|it| it.collect::<Result<Vec<_>, _>>().map_err(|e| e.to_string())),
+                    Rd::Cached(r) => r.get_zoom_interval(&name, ss, ee, res).map_err(|e| e.to_string()).and_then(|it| it.collect::<Result<Vec<_>, _>>().map_err(|e| e.to_string())),
+                };
+                let mut zr = vec![];
+                let mut err = 0;
+                match got { Ok(v) => for z in v { zr.push(json!([ctx.pos_out(z.start), ctx.pos_out(z.end)])); }, Err(_) => err = 1 }
+                answers.push(json!({"op": op, "c": ci, "s": s, "e": e, "iv": [], "vals": [], "zr": zr, "err": err}));
             }
             "par" => {
                 // N readers obtained by reopen() from the current one, used AT THE SAME TIME from N threads (as the
@@ -127,5 +156,5 @@ pub fn run_case(c: &J) -> J {
             _ => panic!("bad op"),
         }
     }
-    json!({"result": "ok", "answers": answers, "unmapped": if ctx.unmapped {1} else {0}})
+    json!({"result": "ok", "answers": answers, "zlevel": zlevel, "unmapped": if ctx.unmapped {1} else {0}})
 }
